@@ -357,6 +357,12 @@ func (c *Context) Quo(d, x, y *Decimal) (Condition, error) {
 				// The coefficient changed, so recompute num digits in
 				// setExponent.
 				nd = unknownNumDigits
+				if NumDigits(&d.Coeff) > int64(c.Precision) {
+					// Rounding up carried into a new digit (99...9 -> 100...0);
+					// drop the trailing zero to stay within Precision digits.
+					d.Coeff.Quo(&d.Coeff, bigTen)
+					adjExp10--
+				}
 			}
 		} else {
 			// The quotient is subnormal and is rounded at Etiny by
